@@ -11,6 +11,9 @@ parameters, results of np.unique), not on text.
   ACCUM       `x[idx] += v` with idx the inverse mapping of np.unique: numpy applies only the last of the repeated updates.
   SCATTER     results are written back through the first-occurrence indices of np.unique (return_index): repeated entries of
               the request are never filled.
+  TOL-GEOM    an approximate comparison of centre coordinates (np.isclose / np.allclose / abs(d) < eps) chooses between formulas:
+              the integrals jump for nearly coincident centres, and with numpy's default relative tolerance the choice depends on
+              how far the centres are from the origin (translation invariance is lost).
 """
 import ast
 
@@ -81,6 +84,12 @@ def scan_function(f):
                     and "transform" in n.func.value.id and n.args and ast.unparse(n.args[0]) in REAL:
                 out.append(("CAST-IN", n, f"`{ast.unparse(n)[:70]}` casts the transformation to a real dtype: a complex transformation silently loses its "
                                          "imaginary part"))
+        if isinstance(n, ast.Call) and (_np(n) in ("isclose", "allclose") or (dotted(n.func) or "") == "math.isclose"):
+            txt = " ".join(ast.unparse(a) for a in n.args[:2])
+            if "coord" in txt or "center" in txt or "centre" in txt or "rel_dist" in txt:
+                out.append(("TOL-GEOM", n, f"`{ast.unparse(n)[:70]}` decides between formulas by an approximate comparison of centres: the result is "
+                                          "discontinuous for nearly coincident centres and, through the relative tolerance, depends on the distance "
+                                          "from the origin"))
         if isinstance(n, ast.AugAssign) and isinstance(n.target, ast.Subscript):
             idx_names = {x.id for x in ast.walk(n.target.slice) if isinstance(x, ast.Name)}
             hit = idx_names & uniq_inverse
